@@ -46,8 +46,25 @@ def main():
         srows.append("| `%s` | %s | %s | %s | %s |" % (m["id"], m["property"], m["summary"].replace("|", "\\|"), m["needs"].replace("|", "\\|"),
                                                      "<br>".join(sigs) if sigs else "MISSED"))
     seeded_md = "| id | property | change | needs to manifest | detected by (quick tier): signatures |\n|---|---|---|---|---|\n" + "\n".join(srows)
+    fr = os.path.join(V, "seeded", "fixrev", "SUMMARY.json")
+    frows = []
+    if os.path.exists(fr):
+        summ = json.load(open(fr))
+        n_det = sum(1 for r in summ.values() if r.get("result") == "detected")
+        n_na = sum(1 for r in summ.values() if str(r.get("result", "")).startswith("reverse patch"))
+        rest = [(c, r) for c, r in summ.items() if r.get("result") != "detected" and not str(r.get("result", "")).startswith("reverse patch")]
+        frows.append("%d reversed repairs: %d detected by the check of their property, %d not applicable (later commits touch the same lines), %d other."
+                     % (len(summ), n_det, n_na, len(rest)))
+        if rest:
+            frows.append("")
+            frows.append("| commit | property | outcome | note |")
+            frows.append("|---|---|---|---|")
+            for c, r in rest:
+                frows.append("| `%s` | %s | %s | %s |" % (c, r["property"], r.get("result"), r.get("note", "")))
+    fixrev_md = "\n".join(frows) if frows else "(not run yet)"
     p = os.path.join(V, "DESIGN.md")
     t = open(p).read()
+    t = region(t, "fixrev", fixrev_md)
     t = region(t, "fixed", fixed_md)
     t = region(t, "open", open_md)
     t = region(t, "seeded", seeded_md)
